@@ -10,6 +10,7 @@ import (
 	"fmt"
 	"os"
 	"path/filepath"
+	"runtime"
 	"runtime/debug"
 	"sort"
 	"strconv"
@@ -74,6 +75,20 @@ func Start(prop, level string) *R {
 	// ... but never let that balloon a large live heap: the collector becomes eager again near 3 GiB
 	// (several checks may run side by side on one machine)
 	debug.SetMemoryLimit(3 << 30)
+	// a tree under test may make the code allocate without bound (an output loop that never ends): the
+	// machine has no memory limit of its own, so the run gives up long before the kernel has to choose
+	// a victim. No verdict can be given then: exit 2 with a message.
+	go func() {
+		var ms runtime.MemStats
+		for {
+			time.Sleep(250 * time.Millisecond)
+			runtime.ReadMemStats(&ms)
+			if ms.HeapAlloc > 12<<30 {
+				fmt.Fprintf(os.Stderr, "internal: live heap of %d MiB: the code under test allocates without bound; giving up without a verdict\n", ms.HeapAlloc>>20)
+				os.Exit(2)
+			}
+		}
+	}()
 	args := os.Args[1:]
 	for i := 0; i < len(args); i++ {
 		switch args[i] {
